@@ -289,7 +289,7 @@ class World:
         tab = self.delay_tables[link.lid % len(self.delay_tables)]
         i = self.delay_ctr.get(link.lid, 0)
         self.delay_ctr[link.lid] = i + 1
-        t = max(link.last_arrival, self.now + tab[i % len(tab)] * 1000)
+        t = max(link.last_arrival + 1, self.now + tab[i % len(tab)] * 1000)   # strictly later than the previous message on this link: generated tie-breaks must never reorder one link (FIFO)
         link.last_arrival = t
         self.push_event(t, ('deliver', link, msg))
 
